@@ -9,14 +9,11 @@ EXTENDS Wire, Json, IOUtils
 
 Rec == ndJsonDeserialize(IOEnv.TRACE)
 
-VARIABLES l, st, bad, skip, scn, cnt, nt
-vars == <<l, st, bad, skip, scn, cnt, nt>>
-
 Kinds == {"stream", "feed", "decode", "encode", "cmdof", "end"}
-InitSt == [S |-> <<>>, total |-> 0, fed |-> 0, ix |-> 1, frames |-> 0]
+InitSt(e) == [S |-> <<>>, total |-> 0, fed |-> 0, ix |-> 1, frames |-> 0]
 
-Ok(s)      == [ok |-> TRUE, st |-> s, why |-> ""]
-No(s, why) == [ok |-> FALSE, st |-> s, why |-> why]
+Ok(s)      == [ok |-> TRUE, st |-> s, why |-> "", dev |-> "", site |-> ""]
+No(s, why) == [ok |-> FALSE, st |-> s, why |-> why, dev |-> "", site |-> ""]
 
 Apply(s, e) ==
     CASE e.ev = "stream" ->
@@ -49,32 +46,11 @@ Apply(s, e) ==
             THEN Ok(s) ELSE No(s, "frame count differs from the whole-stream parse")
       [] OTHER -> No(s, "unknown event")
 
-Init == l = 1 /\ st = InitSt /\ bad = {} /\ skip = FALSE /\ scn = 0
-        /\ cnt = [k \in Kinds \cup {"scn", "frames", "nontrivial"} |-> 0] /\ nt = FALSE
-
 \* a scenario is non-trivial once the reference has judged a decoded frame, an encode or a conversion
 NonTrivial(e, r) == r.ok /\ ((e.ev = "decode" /\ e.some) \/ e.ev = "encode" \/ e.ev = "cmdof")
 
-Next ==
-    /\ l <= Len(Rec)
-    /\ l' = l + 1
-    /\ LET e == Rec[l] IN
-       IF e.ev = "reset"
-       THEN /\ st' = InitSt /\ skip' = FALSE /\ scn' = e.scn /\ bad' = bad /\ nt' = FALSE
-            /\ cnt' = [cnt EXCEPT !["scn"] = @ + 1]
-       ELSE IF skip THEN UNCHANGED <<st, bad, skip, scn, cnt, nt>>
-       ELSE LET r == Apply(st, e) IN
-            /\ st' = r.st /\ scn' = scn
-            /\ skip' = ~r.ok
-            /\ bad' = IF r.ok THEN bad ELSE bad \cup {[scn |-> scn, line |-> l, ev |-> e.ev, why |-> r.why]}
-            /\ nt' = (nt \/ NonTrivial(e, r))
-            /\ cnt' = IF e.ev \in Kinds
-                      THEN [cnt EXCEPT ![e.ev] = @ + 1,
-                                       !["frames"] = @ + (IF e.ev = "decode" /\ r.ok /\ e.some THEN 1 ELSE 0),
-                                       !["nontrivial"] = @ + (IF ~nt /\ NonTrivial(e, r) THEN 1 ELSE 0)]
-                      ELSE cnt
-
-Spec == Init /\ [][Next]_vars
-
-Report == (l = Len(Rec) + 1) => PrintT(<<"RESULT", ToJson([bad |-> bad, cnt |-> cnt, lines |-> Len(Rec)])>>)
+VARIABLES l, st, bad, devs, skip, scn, cnt, nt
+TK == INSTANCE TraceKit
+Spec == TK!Spec
+Report == TK!Report
 =============================================================================
